@@ -46,14 +46,16 @@ def run(ctx):
                 stats["prefix states compared"] += 1
                 ssa = ssas[i]
                 real = proplib.flatten_cfg(ssa)
+                l2_bad = None
+                nviol = len(ctx.violations) + len(ctx.known_hits)
                 if real != anns:
                     l2 += 1
                     diffs = [(j, a, b) for j, (a, b) in enumerate(zip(real, anns)) if a != b][:5]
-                    ctx.violation("prefix-correspondence", {"stage": "L2 annotations after k passes: real vs Lean model", "source": srcs[i], "loop": which,
-                                                            "k": k, "first_differences": diffs, "broken": "correspondence Propagate.%s <-> cfg.rs loop with pass budget" %
-                                                            ("valLoop" if which == "value_passes" else "degLoop")}, no_input=True)
+                    # the correspondence is broken: the oracles below search this prefix state for a concrete false claim
+                    l2_bad = {"stage": "L2 annotations after k passes: real vs Lean model", "source": srcs[i], "loop": which,
+                              "k": k, "first_differences": diffs, "broken": "correspondence Propagate.%s <-> cfg.rs loop with pass budget" %
+                              ("valLoop" if which == "value_passes" else "degLoop")}
                     done.add(i)
-                    continue
                 # (monotonicity in k is checked below on one fixed statement order: the order of phi statements
                 # differs from run to run (hash order), so node positions of different runs are not comparable)
                 # soundness of the prefix state
@@ -66,9 +68,9 @@ def run(ctx):
                                                                       "claims_below_fixpoint": bad[:5], "broken": None})
                 else:
                     cl = c06.claims(ssa)
-                    phic = vlib.run_model(["phicomplete " + vlib.sexp(ssa)])[0] if cl and k in (1, 3, 6, 12) else "complete"
+                    phic = vlib.run_model(["phicomplete " + vlib.sexp(ssa)])[0] if cl and (k in (1, 3, 6, 12) or l2_bad) else "complete"
                     incomplete = phic.startswith("incomplete")
-                    if cl and not incomplete and k in (1, 3, 6, 12):
+                    if cl and not incomplete and (k in (1, 3, 6, 12) or l2_bad):
                         cache = {}
                         rng = ctx.rng
 
@@ -89,6 +91,13 @@ def run(ctx):
                                             l1 += 1
                                             ctx.violation("prefix-false-constant", {"stage": "L1 C06 oracle on the state after k passes", "source": srcs[i], "k": k,
                                                                                     "node": list(key), "claimed": cl[key][0], "observed": str(v), "broken": None})
+                if l2_bad:
+                    l1_before = getattr(run, "_l1", 0)
+                    if l1 == l1_before:
+                        ctx.violation("prefix-correspondence", l2_bad, no_input=True)
+                    run._l1 = l1
+                    continue
+                run._l1 = l1
                 fix = fv if which == "value_passes" else fd
                 if fix:
                     done.add(i)
